@@ -105,6 +105,7 @@ fn explore_here(job: &Job) -> JobResult {
     let r = catch_unwind(AssertUnwindSafe(|| {
         runner.run(move || {
             run_body(&body, &x2);
+            HEARTBEAT[0].fetch_add(1, std::sync::atomic::Ordering::Relaxed);
             let (c, infl) = class_of(&x2);
             let mut g = cl2.lock().unwrap();
             let fresh = g.0.len() < 5000 && g.0.insert(c.clone());
@@ -219,6 +220,10 @@ fn h1_box(prop: &str, thorough: bool) -> Vec<(Body, usize)> {
                 match prop {
                     "C07" => {
                         push(base.clone(), bound);
+                        // the sets produced before a reader error also have to reach a draining consumer
+                        if s >= 2 {
+                            push(H1 { err_at: Some(s - 1), ..base.clone() }, bound);
+                        }
                     }
                     "C16" => {
                         push(base.clone(), bound);
